@@ -14,6 +14,11 @@ from vlib import common, evm, progs
 PROP = "C03"
 PROFILES = ("rel",)
 COPY_OPS = {0x37, 0x39, 0x3c, 0x3e, 0xf1, 0xf2, 0xf4, 0xfa}
+# CPU-seconds the analysis may burn without one watchdog poll (interval 1) or hook event before it is judged not to
+# halt. Calibrated: over the whole workload on the unchanged tree the largest such gap is reported in the evidence
+# (max_cpu_gap_ms, a few milliseconds); the threshold is three to four orders of magnitude above it and is measured
+# in CPU time of the driver process, so machine load cannot trip it.
+STALL_CPU_S = 30.0
 
 
 def step_bound(code, cfg):
@@ -149,10 +154,18 @@ def judge_full(res, code, cfg, r, d=None, req=None):
         # the process died inside the analysis (e.g. unbounded recursion overflowing the stack): it did not halt
         res.violation("c03:analysis-crashed:%s" % r.get("signal"), "the analysis process died: %s" % json.dumps(r)[:200], case)
         return
+    if cls == "stall":
+        res.violation("c03:spinning-without-a-poll",
+                      "the analysis consumed %.0f CPU-seconds without reaching a single watchdog poll (interval 1) or hook event, "
+                      "after %d such events; the same program's symbolic execution alone finished within its step bound" % (
+                          r.get("cpu_s_without_progress", 0), r.get("progress_events", 0)), case)
+        return
     if cls in ("timeout", "oom", "harness_error", "panic"):
         res.inconc("full:driver:%s" % cls)
         return
     mon = r["mon"]
+    res.counters["max_cpu_gap_ms"] = max(res.counters.get("max_cpu_gap_ms", 0), int(1000 * r.get("max_cpu_gap_s", 0)))
+    res.count("runs_under_the_stall_detector")
     res.counters["max_rounds"] = max(res.counters.get("max_rounds", 0), mon["round_count"])
     rounds = mon["rounds"]
     res.count("full_runs")
@@ -188,6 +201,9 @@ def shard(shard_no, nshards, seed, tier, extra):
             feats = set(feats) | {"shape:sinks"}
         elif r < 0.16:
             code, feats = progs.cyclic_types(rng)
+        elif r < 0.28:
+            # hostile constants in the operand shapes the lifting passes match on
+            code, feats = progs.lift_shapes(rng, evm.boundary_constants())
         elif r < 0.7:
             code, feats = progs.loopy(rng)
         elif r < 0.85:
@@ -208,7 +224,7 @@ def shard(shard_no, nshards, seed, tier, extra):
             steps = rv["mon"]["steps"]
             budget = bound + 3000 * (steps + 200)
             freq = {"op": "analyze", "code": code.hex(), "stage": "analyze", "cfg": dict(cfg, permissive=True),
-                    "wd": {"every": 1, "stop_at": budget}, "rand_seed": rng.getrandbits(48)}
+                    "wd": {"every": 1, "stop_at": budget}, "rand_seed": rng.getrandbits(48), "stall_cpu_s": STALL_CPU_S}
             rf = d.call(freq, timeout=300)
             judge_full(res, code, cfg, rf, d, freq)
         if i < 2:
@@ -225,12 +241,15 @@ def run(tier, seed, t0):
         "control-flow shapes (tight self-loops, nested loops, two JUMPDESTs above a fork target, jump tables, "
         "stack-growing loops, fork bombs with shared targets, gas burners, random jump graphs, forward-only programs "
         "with bad targets), programs with boundary constants as sizes / offsets of bulk copies, hashes, calls and logs, storage read-mask-write programs and container-cyclic storage evidence (an array / mapping "
-        "element receiving its own slot's value, through 1-2 slots and 1-2 nesting levels) x iteration limit 1..12 x fork limit 1..60 x gas limit "
+        "element receiving its own slot's value, through 1-2 slots and 1-2 nesting levels), hostile constants (0, 1, non-powers of two, 2^255, 2^256-1) in the "
+        "operand shapes the lifting passes match on (x OP c / c OP x under masks and further operations) x iteration limit 1..12 x fork limit 1..60 x gas limit "
         "300..30M x strict/permissive. distinct = (bytecode, config); non-trivial = at least one fork or a repeated "
         "instruction. Halting is decided on logical steps (watchdog polls), never wall-clock.",
         t0, ["'always halts' is restated as: the VM ends within (1+F*J)*(L+1)*(n + 768*copy opcodes) polls and unification "
              "within 64+4*V rounds (V = type variables after the first round)",
-             "a poll budget hit that is not explained by either bound is inconclusive"], min_judged=200)
+             "a poll budget hit that is not explained by either bound is inconclusive",
+             "a stage that spins is judged by CPU time without progress (%.0f CPU-seconds of the driver process without one "
+             "watchdog poll at interval 1 or hook event), never by wall-clock; a plain wall-clock timeout stays inconclusive" % STALL_CPU_S], min_judged=200)
 
 
 def replay(path):
@@ -242,7 +261,7 @@ def replay(path):
     threads_max, J, bound = step_bound(code, cfg)
     if case.get("full"):
         freq = {"op": "analyze", "code": code.hex(), "stage": "analyze", "cfg": dict(cfg, permissive=True),
-                "wd": {"every": 1, "stop_at": 3_000_000}, "rand_seed": case.get("rand_seed") or 1}
+                "wd": {"every": 1, "stop_at": 3_000_000}, "rand_seed": case.get("rand_seed") or 1, "stall_cpu_s": STALL_CPU_S}
         rf = d.call(freq, timeout=600)
         judge_full(res, code, cfg, rf, d, freq)
     else:
